@@ -128,6 +128,22 @@ class Scratch:
             raise ToolError("rewrite rule R1 fired %d times, expected 4 "
                             "(crypt.c changed shape; update the rule)" % n)
         open(p, "w").write(new)
+        # R3: goto-instrument's loop-contract pass gives every non-const
+        # object of static storage duration a nondeterministic initial value.
+        # `static const char *magic = "$sha1$";` (a never-assigned pointer to
+        # a literal) would lose its initialiser; the rule adds the `const` the
+        # declaration could have had.  Semantics-preserving: the variable is
+        # not assigned anywhere (the compiler would reject the rewritten text
+        # otherwise).
+        p = os.path.join(lib, "crypt-pbkdf1-sha1.c")
+        if os.path.exists(p):
+            txt = open(p).read()
+            new, n = re.subn(r"static const char \*magic = ", "static const char *const magic = ", txt)
+            self.rules["R3 crypt-pbkdf1-sha1.c 'static const char *magic' -> 'static const char *const magic'"] = n
+            if n != 1:
+                raise ToolError("rewrite rule R3 fired %d times, expected 1 "
+                                "(crypt-pbkdf1-sha1.c changed shape; update the rule)" % n)
+            open(p, "w").write(new)
 
     def tree_hash(self):
         h = hashlib.sha256()
@@ -229,6 +245,7 @@ def _srcline(path, line, span=0):
         return ""
 
 
+DEFAULT_BOUNDS = {"PCTS": 384}   # named loop bounds of /verif's models when a job does not override them
 _LOOP_SEEN = {}
 _LOOP_ORD = None
 LOOP_ORD_FILE = os.path.join(VERIF, "spec", "loop_ordinals.json")
@@ -479,7 +496,7 @@ def run_job(scr, job, small=False, trace_prop=None, timeout=None):
             m = re.search(r"XV_UNWIND[ (]+([A-Za-z0-9_]+)", line)
             if m:
                 n = m.group(1)
-                n = int(n) if n.isdigit() else int(job.get("bounds", {}).get(n, 0))
+                n = int(n) if n.isdigit() else int(job.get("bounds", {}).get(n, DEFAULT_BOUNDS.get(n, 0)))
                 if n:
                     uws.append("%s.%d:%d" % (l["function"], l["id"], n + 2))
                     continue
